@@ -49,6 +49,6 @@ MANIFEST_ENTRY = dict(
     category='other',
     engine='bounded',
     technique='sidecar contracts on the real functions: wiring / closed-form obligations from the AST discharged by z3 and the ring normaliser where the functions are within reach; bounded run-time contracts with independent oracles for the rest (never counted as proved)',
-    text='Discharged from the real source on every run (all values, stated small shapes): integrators work on a fresh C-contiguous copy and a contiguous grid (syntactic dataflow), memo keys of 6 caches injective, perturb_params frame, frame clauses of all 20 compiled kernels, S() mask frame. Bounded run-time contracts (never counted as proved): Frame (inputs hashed before/after), aliasing, memory layouts, call-history and hash-seed independence over a table of 87 API calls.',
+    text='Discharged from the real source on every run (all values, stated small shapes): integrators work on a fresh C-contiguous copy and a contiguous grid (syntactic dataflow), memo keys of 6 caches injective, perturb_params frame, compute_cov_dist order (no set iteration), frame clauses of all 20 compiled kernels, S() mask frame. Bounded run-time contracts (never counted as proved): Frame (inputs hashed before/after), aliasing, memory layouts, call-history and hash-seed independence over a table of 87 API calls.',
     note='bounded: see coverage.bounded.drivers[].bound in the evidence file for the exact domain of every driver',
 )
